@@ -67,6 +67,13 @@ class Check(PropertyCheck):
                 bad = gen.gen_invalid_request(rng, tr, M)
                 if bad:
                     lines += [f"disp {bad[0]} {bad[1]} {bad[2]}", "q current_time", "q completed"]
+            if len(tr.ready()) == 1 and sum(len(job) - tr.idx[j] for j, job in enumerate(jobs)) == 1 and rng.random() < 0.5:
+                # the very last operation is first requested on every machine it cannot run on (busy machines included): refused,
+                # and the clock is not bothered by what the request would have meant
+                lj, lp = tr.ready()[0]
+                for bm in range(M):
+                    if bm not in jobs[lj][lp][0]:
+                        lines += [f"disp {lj} {lp} {bm}", "q current_time", "q completed"]
             if rng.random() < 0.04:
                 lines += ["stamp", "q current_time", "q completed"]
             if rng.random() < 0.08:
